@@ -627,7 +627,7 @@ func Run(ctx *core.Ctx) {
 			wg.Add(1)
 			go func() { defer wg.Done(); g.run(fl, seed) }()
 		}
-		if round == 0 && os.Getenv("C14_REARM") == "1" {
+		if round == 0 && os.Getenv("C14_REARM") != "0" {
 			wg.Add(1)
 			go func() { defer wg.Done(); runRearm(e, bins[kind], envs[kind]) }()
 		}
